@@ -12,7 +12,8 @@ package mqtt
 
 // ---- C37: the read deadline is one and a half keepalive periods after the current time ----
 // verif:func mqtt.Client.refreshDeadline
-//@ modifies cl.Net.Conn.deadline, lastNow
+//@ modifies cl.Net.Conn.deadline, lastNow, deadlineArmed
+//@ ensures armed: cl.Net.Conn != nil ==> deadlineArmed
 //@ ensures one-and-a-half-keepalive: keepalive > 0 && cl.Net.Conn != nil ==> durOf(lastNow, cl.Net.Conn.deadline) == 1500000000 * int64(keepalive)
 //@ ensures zero-disables: keepalive == 0 && cl.Net.Conn != nil ==> cl.Net.Conn.deadline == zerovalue("time.Time")
 
@@ -151,6 +152,7 @@ package mqtt
 
 // ---- PUBACK from the client: completes the broker's outbound QoS 1 publish with that id ----
 // verif:func mqtt.Server.processPuback modifies=all
+//@ ensures table-object-kept: cl.State.Inflight == old(cl.State.Inflight)
 //@ requires validCl(cl) && validSrv(s)
 //@ ensures C07-no-error: r0 == nil
 //@ ensures C09-other-ids-untouched: forall k uint16 :: k != pk.PacketID ==> (has(ifl(cl), k) <==> old(has(ifl(cl), k))) && ifl(cl)[k] == old(ifl(cl)[k])
@@ -165,6 +167,7 @@ package mqtt
 
 // ---- PUBREC from the client: second step of the broker's outbound QoS 2 publish ----
 // verif:func mqtt.Server.processPubrec modifies=all
+//@ ensures table-object-kept: cl.State.Inflight == old(cl.State.Inflight)
 //@ requires validCl(cl) && validSrv(s)
 //@ ensures C09-pubrel-follows-pubrec: old(hasT(cl, pk.PacketID, Publish)) && pk.ReasonCode == 0 && r0 == nil ==> sentOne(cl) && lastSent(cl).FixedHeader.Type == Pubrel && lastSent(cl).PacketID == pk.PacketID && hasT(cl, pk.PacketID, Pubrel)
 //@ ensures C09-other-ids-untouched: forall k uint16 :: k != pk.PacketID ==> (has(ifl(cl), k) <==> old(has(ifl(cl), k))) && ifl(cl)[k] == old(ifl(cl)[k])
@@ -176,6 +179,7 @@ package mqtt
 
 // ---- PUBREL from the client: completes the client's inbound QoS 2 publish ----
 // verif:func mqtt.Server.processPubrel modifies=all
+//@ ensures table-object-kept: cl.State.Inflight == old(cl.State.Inflight)
 //@ requires validCl(cl) && validSrv(s)
 //@ ensures C07-pubcomp-or-error: r0 == nil ==> sentOne(cl) && lastSent(cl).FixedHeader.Type == Pubcomp && lastSent(cl).PacketID == pk.PacketID
 //@ ensures C08-exchange-completes: old(hasT(cl, pk.PacketID, Pubrec)) && pk.ReasonCode == 0 && r0 == nil ==> !has(ifl(cl), pk.PacketID)
@@ -187,6 +191,7 @@ package mqtt
 
 // ---- PUBCOMP from the client: completes the broker's outbound QoS 2 publish ----
 // verif:func mqtt.Server.processPubcomp modifies=all
+//@ ensures table-object-kept: cl.State.Inflight == old(cl.State.Inflight)
 //@ requires validCl(cl) && validSrv(s)
 //@ ensures C07-no-error: r0 == nil
 //@ ensures C09-other-ids-untouched: forall k uint16 :: k != pk.PacketID ==> (has(ifl(cl), k) <==> old(has(ifl(cl), k))) && ifl(cl)[k] == old(ifl(cl)[k])
@@ -200,6 +205,7 @@ package mqtt
 
 // ---- PINGREQ ----
 // verif:func mqtt.Server.processPingreq modifies=all
+//@ ensures table-object-kept: cl.State.Inflight == old(cl.State.Inflight)
 //@ requires cl != nil
 //@ ensures C07-pingresp-or-error: r0 == nil ==> sentOne(cl) && lastSent(cl).FixedHeader.Type == Pingresp
 
@@ -319,6 +325,7 @@ package mqtt
 // verif:def accepted(cl *Client, pk Packet) bool = (cl.Net.Inline || (validPub(pk.TopicName) && aclOK(cl, pk.TopicName, true))) && publishErr == nil
 
 // verif:func mqtt.Server.processPublish modifies=all
+//@ ensures table-object-kept: cl.State.Inflight == old(cl.State.Inflight)
 //@ requires validClPub(cl) && validSrv(s) && publishErr == nil && s.Options.Capabilities.MaximumQos <= 2
 //@ requires !cl.stopped && !s.Options.Capabilities.Compatibilities.PassiveClientDisconnect
 // what PublishValidate and the decoder guarantee for a PUBLISH that reaches the handler; clients respect the advertised maximum QoS
@@ -495,6 +502,7 @@ package mqtt
 // verif:def subCode(s *Server, cl *Client, sub Subscription) byte = (cl.Properties.ProtocolVersion < 5 && subCode5(s, cl, sub) > 2) ? 128 : subCode5(s, cl, sub)
 
 // verif:func mqtt.Server.processSubscribe modifies=all
+//@ ensures table-object-kept: cl.State.Inflight == old(cl.State.Inflight)
 //@ requires validCl(cl) && validSrv(s) && s.Topics != nil && cl.State.Subscriptions != nil && cl.State.Subscriptions.internal != nil && s.Options.Capabilities.MaximumQos <= 2
 //@ requires forall j int :: 0 <= j && j < len(pk.Filters) ==> pk.Filters[j].Qos <= 2
 //@ ensures C07-suback-or-error: r0 == nil ==> sentOne(cl) && lastSent(cl).FixedHeader.Type == Suback && lastSent(cl).PacketID == pk.PacketID && len(lastSent(cl).ReasonCodes) == len(pk.Filters)
@@ -510,6 +518,7 @@ package mqtt
 //@ invariant version: cl.Properties.ProtocolVersion == old(cl.Properties.ProtocolVersion)
 
 // verif:func mqtt.Server.processUnsubscribe modifies=all
+//@ ensures table-object-kept: cl.State.Inflight == old(cl.State.Inflight)
 //@ requires validCl(cl) && validSrv(s) && s.Topics != nil && cl.State.Subscriptions != nil
 //@ ensures C07-unsuback-or-error: r0 == nil ==> sentOne(cl) && lastSent(cl).FixedHeader.Type == Unsuback && lastSent(cl).PacketID == pk.PacketID && len(lastSent(cl).ReasonCodes) == len(pk.Filters)
 //@ ensures C38-subscription-counter-follows-index: s.Info.Subscriptions - old(s.Info.Subscriptions) == nsubs - old(nsubs)
@@ -517,3 +526,51 @@ package mqtt
 //@ invariant counter: s.Info.Subscriptions - old(s.Info.Subscriptions) == nsubs - old(nsubs)
 //@ invariant valid: validCl(cl) && s != nil && s.Info != nil && s.hooks != nil && s.Options != nil && s.Options.Capabilities != nil && s.Options.Capabilities.Compatibilities != nil && s.Topics != nil && cl.State.Subscriptions != nil && sentNone(cl)
 //@ invariant bounded: old(s.Info.Subscriptions) - rangeindex - 1 <= s.Info.Subscriptions && s.Info.Subscriptions <= old(s.Info.Subscriptions)
+
+// ======================================================================================
+// Inbound path (C28): header, size guard, body, dispatch. Every index / slice / nil dereference /
+// type assertion / allocation size in these functions is a `safe` obligation.
+// ======================================================================================
+// verif:def streamOK(cl *Client) bool = cl.Net.bconn != nil && 0 <= cl.Net.bconn.rpos && cl.Net.bconn.rpos <= cl.Net.bconn.blen && cl.Net.bconn.blen <= 1099511627776
+// verif:def validClRead(cl *Client) bool = cl != nil && cl.ops != nil && cl.ops.options != nil && cl.ops.options.Capabilities != nil && cl.ops.info != nil && cl.ops.hooks != nil
+
+// verif:func mqtt.Client.ReadFixedHeader
+//@ requires validClRead(cl) && fh != nil && (cl.Net.bconn != nil ==> streamOK(cl))
+//@ requires C37-deadline-refreshed-before-every-header-read: cl.Net.Conn != nil ==> deadlineArmed
+//@ modifies fields(fh), cl.Net.bconn.rpos, all(system.Info.BytesReceived)
+//@ ensures remaining-in-range: r0 == nil ==> 0 <= fh.Remaining && fh.Remaining <= 268435455 && streamOK(cl)
+//@ ensures C28-oversized-packet-refused-before-its-body: r0 == nil && cl.ops.options.Capabilities.MaximumPacketSize > 0 ==> (cl.Net.bconn.rpos - old(cl.Net.bconn.rpos)) + fh.Remaining <= int(cl.ops.options.Capabilities.MaximumPacketSize)
+
+// verif:func mqtt.Hooks.OnPacketRead trusted pure
+
+// verif:func mqtt.Client.ReadPacket modifies=all
+//@ requires validClRead(cl) && fh != nil && streamOK(cl) && 0 <= fh.Remaining && fh.Remaining <= 268435455
+//@ ensures stream-kept: streamOK(cl) && validClRead(cl)
+
+// the per-packet handler handed to Client.Read (receivePacket): contract attached to the function type
+// verif:func mqtt.ReadFn trusted modifies=all params=cl,pk
+//@ requires cl != nil
+//@ ensures streamOK(cl) && validClRead(cl)
+
+// verif:func mqtt.Client.Read modifies=all
+//@ requires validClRead(cl) && (cl.Net.bconn != nil ==> streamOK(cl))
+// verif:loop mqtt.Client.Read 1
+//@ invariant validClRead(cl) && (cl.Net.bconn != nil ==> streamOK(cl))
+
+// verif:func mqtt.Server.receivePacket modifies=all
+//@ requires validDispatch(s, cl) && publishErr == nil && !cl.stopped && !s.Options.Capabilities.Compatibilities.PassiveClientDisconnect && s.Log != nil
+
+// ---- dispatch (C28: every handler is entered with the state it needs; nothing here can panic) ----
+// verif:func mqtt.Hooks.OnPacketProcessed trusted
+//@ modifies nev, evkind, evcl, evid
+// verif:func mqtt.Server.processConnect trusted modifies=all
+//@ ensures cl.State.Inflight == old(cl.State.Inflight)
+// verif:func mqtt.Server.processDisconnect trusted modifies=all
+//@ ensures cl.State.Inflight == old(cl.State.Inflight)
+// verif:func mqtt.Server.processAuth trusted modifies=all
+//@ ensures cl.State.Inflight == old(cl.State.Inflight)
+// verif:func mqtt.Inflight.NextImmediate trusted
+// verif:def validDispatch(s *Server, cl *Client) bool = validClPub(cl) && validSrv(s) && s.Topics != nil && cl.State.Subscriptions != nil && cl.State.Subscriptions.internal != nil && s.Options.Capabilities.MaximumQos <= 2 && !has(ifl(cl), 0)
+
+// verif:func mqtt.Server.processPacket modifies=all
+//@ requires validDispatch(s, cl) && publishErr == nil && !cl.stopped && !s.Options.Capabilities.Compatibilities.PassiveClientDisconnect
